@@ -432,7 +432,11 @@ func CoordinatorMain(o *Opts) int {
 	violations := 0
 	var violLines []string
 	var unreproducible []string
-	replayDir := filepath.Join(o.VerifDir, "replays", o.ID)
+	outDir := o.VerifDir
+	if d := os.Getenv("VERIF_OUT_DIR"); d != "" {
+		outDir = d // seeded-change runs write their evidence and replays elsewhere
+	}
+	replayDir := filepath.Join(outDir, "replays", o.ID)
 	for n, f := range novel {
 		if n >= maxConfirm {
 			break
@@ -533,9 +537,9 @@ func CoordinatorMain(o *Opts) int {
 		"wall_s":      time.Since(start).Seconds(),
 		"violations":  violations,
 	}
-	os.MkdirAll(filepath.Join(o.VerifDir, "evidence"), 0o755)
+	os.MkdirAll(filepath.Join(outDir, "evidence"), 0o755)
 	b, _ := json.MarshalIndent(ev, "", " ")
-	if err := os.WriteFile(filepath.Join(o.VerifDir, "evidence", o.ID+".json"), b, 0o644); err != nil {
+	if err := os.WriteFile(filepath.Join(outDir, "evidence", o.ID+".json"), b, 0o644); err != nil {
 		fmt.Fprintln(os.Stderr, "HARNESS-ERROR: writing evidence:", err)
 		return 2
 	}
